@@ -67,6 +67,42 @@ TABLE = {
                         "re-index invariance and sortedness+limit of the results on Pandas, Polars, SQLite over the enumerated scope (sort_values / sort / head / iloc themselves are assumed library contracts)"),
         "assumptions": ["string + is an uninterpreted cancellative concatenation; quote_identifier, _indent_and_sep_terms, NearSQLUnaryStep keep what they are given (near_sql rendering not under contract)"],
     },
+    "C04": {
+        "mods": ["contracts.c04_format"], "keys": ["SQLModel._indent_and_sep_terms"],
+        "explanation": ("hybrid: PROVED (pyvc) -- SQLModel._indent_and_sep_terms, the routine that lays out every SELECT / GROUP BY / ORDER BY term list: for every option setting (indent text, leading or "
+                        "trailing commas, explicit or default options) the result has exactly one line per term and line i is term i with indent and separator decoration only -- options never drop, repeat "
+                        "or reorder a term (this also backs the contract assumed for it in the C09 / C18 / C27 text obligations). NOT under contract: WITH vs nested sub-queries, annotations, CTE elimination, "
+                        "the extend-merge optimisation. BOUNDED -- every option combination x the enumerated corpus must return the same table as the default options on SQLite (PostgreSQL text on the surrogate)"),
+        "assumptions": ["strings uninterpreted: + cancellative concatenation, ' ' * k and len(str) uninterpreted"],
+    },
+    "C22": {
+        "mods": ["contracts.c22_schema"], "keys": ["SchemaRaises.check_return", "SchemaRaises.check_args"],
+        "explanation": ("hybrid: PROVED (pyvc, two loop invariants) -- SchemaRaises.check_args raises TypeError EXACTLY when the switch is on, argument specifications were declared and some declared "
+                        "argument violates its specification (positional: matched through the parameter names; keyword: looked up by name) or is not supplied at all, and raises nothing else; "
+                        "SchemaRaises.check_return raises TypeError exactly when the switch is on and the return value violates the return specification. `_check_spec` is abstracted as "
+                        "'None iff conforms(spec, value)'. BOUNDED -- conforms itself (types, type sets, data-frame column schemas, null handling), the decorator wiring (__call__), SchemaMock and "
+                        "the switch, for all specifications of depth <= 2 x argument/return values on pandas and polars frames"),
+        "assumptions": ["_check_spec(spec, value) returns None exactly when value conforms to spec; SchemaCheckSwitch() is the process-wide singleton"],
+    },
+    "C14": {
+        "mods": ["contracts.c14_quote"], "keys": ["SQLModel.quote_identifier"],
+        "explanation": ("hybrid: PROVED (pyvc) -- SQLModel.quote_identifier (inherited by every dialect) raises ValueError exactly when the identifier contains the dialect's identifier quote and "
+                        "otherwise returns quote + identifier + quote, i.e. the identifier verbatim and free of the closing delimiter (strings uninterpreted: substring test and concatenation are "
+                        "uninterpreted symbols). NOT under contract: quote_string (doubling by re.sub -- undoubling after doubling needs induction over strings, undecided by z3 and cvc5), value_to_sql, "
+                        "the dialect overrides. BOUNDED -- all strings up to the stated length over a special-character alphabet in every syntactic position, executed and read back on SQLite, tokenised by dialect lexers"),
+        "assumptions": ["`a in b` on strings is an uninterpreted relation; + is an uninterpreted cancellative concatenation"],
+    },
+    "C17": {
+        "mods": ["contracts.c17_recordmap"], "keys": ["RecordMap.__init__", "RecordMap.inverse", "RecordSpecification.map_to_rows", "RecordSpecification.map_from_rows"],
+        "groups_extra": [(["contracts.c19_recordmap"], ["RecordMap.transform"])],
+        "explanation": ("hybrid: PROVED (pyvc) -- the part of the record-map algebra that does not depend on the frame library: RecordMap.__init__ stores the two specifications with row-record "
+                        "specifications normalised to None, keeps at least one side, sets columns_needed / columns_produced as documented and writes only the new object; RecordMap.inverse swaps the "
+                        "two sides, so the inverse needs exactly what this map produces and produces exactly what it needs, and leaves this map unchanged; map_to_rows / map_from_rows put the same "
+                        "specification on opposite sides; RecordMap.transform computes rowrecs_to_blocks(blocks_out) after blocks_to_rowrecs(blocks_in) on an index-free copy. BOUNDED -- that the two "
+                        "conversion routines really are mutually inverse on conforming data, compose(), >> and Pandas == Polars, for all small strict control tables and conforming data tables "
+                        "(blocks_to_rowrecs / rowrecs_to_blocks of the data models are not under contract)"),
+        "assumptions": ["ShiftPipeAction.__init__ does nothing; frames and control tables are opaque values with a row count"],
+    },
     "C27": {
         "mods": ["contracts.glue"], "keys": ["SQLModel.extend_to_near_sql:window-clause"],
         "explanation": ("hybrid: PROVED (pyvc, region contract) -- the window clause every SQL dialect gets from SQLModel.extend_to_near_sql: no OVER clause exactly for a row-wise extend; "
